@@ -11,7 +11,7 @@ from matched_markets.methodology import tbrdiagnostics
 ID = 'C19'
 LEVEL = 'exploration'
 RULE = ('Engine A: frames with G in {2,3,4,5,6} geos (>= 4 needed for the noisy-geo screen) x 3 | 5 trends x planted noisy geo in '
-        '{none, each position} x planted outlier date in {none, three positions} x default / custom column names and group labels; '
+        '{none, each position} x planted outlier date in {none, three positions} x default / custom column names and group labels x extra geos outside the experiment in {none, unassigned label, another label, both}; '
         'each frame is fitted in 3 row orders and once with repeated (non-unique) row index labels. Oracle (consistency, not prediction): get_data() == input rows minus every row of '
         'the reported noisy geos and of the reported outlier dates (as multisets of rows); get_analysis_data() == per-date control '
         '/ treatment totals of that; the caller\'s frame is unchanged; reported results identical for all row orders. '
@@ -20,7 +20,7 @@ ASSUMPTIONS = ['what counts as noisy / outlier is the library\'s decision (not r
                'integer-valued responses, 14 pre-test + 4 test dates']
 
 
-def frame(G, npre, ntest, seed, noisy, outlier, custom):
+def frame(G, npre, ntest, seed, noisy, outlier, custom, others=None):
     n = npre + ntest
     trend = frames.shape('walk', n, seed) * 2 + np.array(frames.lcg_noise(seed + 5, n, 0, 2), float)
     dates = pd.date_range('2020-01-01', periods=n)
@@ -35,11 +35,16 @@ def frame(G, npre, ntest, seed, noisy, outlier, custom):
             if outlier is not None and i == outlier and g % 2 == 1:
                 v += 40 * (g + 1)
             rows.append(dict(date=d, geo=g, group=1 + (g % 2), period=0 if i < npre else 1, response=float(v)))
+    # geos that take no part in the experiment: labelled 'unassigned' (-1) or with some other label (0 = e.g. excluded market)
+    for j, lab in enumerate({'unassigned': [-1], 'other-label': [0], 'both': [-1, 0, 0]}.get(others, [])):
+        big = frames.lcg_noise(300 * seed + j + 11, n, 50, 400)
+        for i, d in enumerate(dates):
+            rows.append(dict(date=d, geo=100 + j, group=lab, period=0 if i < npre else 1, response=float(big[i])))
     df = pd.DataFrame(rows)
     kw = {}
     if custom:
         df = df.rename(columns={'geo': 'Geo', 'group': 'grp', 'period': 'per', 'response': 'sales', 'date': 'day'})
-        df['grp'] = df['grp'].map({1: 7, 2: 5})
+        df['grp'] = df['grp'].map({1: 7, 2: 5, -1: -1, 0: 0})
         kw = dict(key_geo='Geo', key_group='grp', key_period='per', key_response='sales', key_date='day', group_control=7,
                   group_treatment=5)
     return df, kw
@@ -60,11 +65,14 @@ def cases(tier, seed):
                         if tier != 'thorough' and custom and (noisy is not None and outlier is not None):
                             continue
                         out.append({'G': G, 'seed': s + 10 * seed, 'noisy': noisy, 'outlier': outlier, 'custom': custom})
+                        for others in ('unassigned', 'other-label', 'both'):
+                            if tier == 'thorough' or (not custom and (noisy in (None, 1)) == (others != 'both')):
+                                out.append({'G': G, 'seed': s + 10 * seed, 'noisy': noisy, 'outlier': outlier, 'custom': custom, 'others': others})
     return out
 
 
 def run_case(case):
-    df, kw = frame(case['G'], 14, 4, case['seed'], case['noisy'], case['outlier'], case['custom'])
+    df, kw = frame(case['G'], 14, 4, case['seed'], case['noisy'], case['outlier'], case['custom'], case.get('others'))
     names = dict(geo=kw.get('key_geo', 'geo'), date=kw.get('key_date', 'date'), group=kw.get('key_group', 'group'),
                  resp=kw.get('key_response', 'response'))
     cid, tid = kw.get('group_control', 1), kw.get('group_treatment', 2)
@@ -90,6 +98,11 @@ def run_case(case):
         try:
             t.fit(d0, target=names['resp'], **kw)
         except Exception as e:
+            sizes = d0[d0[names['group']].isin([cid, tid])].groupby(names['group'])[names['geo']].nunique()
+            if isinstance(e, ValueError) and 'must be present' in str(e) and int(sizes.min()) == 1:
+                # a group of ONE geo was emptied by the noisy-geo screen: the documented rejection (no both-groups frame left)
+                obs.append(('rejected-group-emptied',))
+                continue
             add('fit-raises-' + type(e).__name__, 'fit() raised %s: %s (G=%d, order=%s)' % (type(e).__name__, str(e)[:120], case['G'], order))
             break
         if not d0.equals(before):
@@ -117,6 +130,8 @@ def run_case(case):
         add('row-order-dependence', 'reported results depend on the input row order: %s' % (sorted(set(obs)),))
     seen = set()
     viol = [v for v in viol if not (v['key'] in seen or seen.add(v['key']))]
+    if obs and obs[0] == ('rejected-group-emptied',):
+        return {'viol': viol, 'nontrivial': False, 'outcome': 'rejected-group-emptied', 'counts': {'fits': len(obs), 'rejected_single_geo_group_screened_out': 1}}
     removed = bool(obs and (obs[0][0] or obs[0][1]))
     return {'viol': viol, 'nontrivial': removed, 'outcome': [bool(obs and obs[0][0]), bool(obs and obs[0][1]), bool(obs and obs[0][2])],
             'counts': {'fits': len(obs), 'frames_with_noisy_geo_reported': int(bool(obs and obs[0][0])),
@@ -132,5 +147,5 @@ def replay(case):
 
 
 def explain(case):
-    df, kw = frame(case['G'], 14, 4, case['seed'], case['noisy'], case['outlier'], case['custom'])
+    df, kw = frame(case['G'], 14, 4, case['seed'], case['noisy'], case['outlier'], case['custom'], case.get('others'))
     return {'frame_rows': df.astype(str).values.tolist()[:60], 'columns': list(df.columns), 'fit_kwargs': kw}
